@@ -20,7 +20,9 @@ Front ends (DESIGN.md section 4):
       dispatch of src/io/slippi/de.rs fn read, through the expression front end -> Gen/ReadTail.v (Proofs/ReadLayout.v);
   (h) UBJSON marker front end: src/io/ubjson/{de,ser}.rs -> Gen/UbjsonMarkers.v (Proofs/UbjsonLayout.v);
   (i) writer front end, second part: PayloadSizes::raw_size, frame_counts, gecko_codes_size -> Gen/WriterRaw.v
-      (Proofs/WriterRawLayout.v); the statement sequence of slippi::write -> Gen/WriterSteps.v (Proofs/WriterStepsLayout.v).
+      (Proofs/WriterRawLayout.v); the statement sequence of slippi::write -> Gen/WriterSteps.v (Proofs/WriterStepsLayout.v);
+  (j) event-handler front end: the arms of parse_event and the impl ParseState helpers (src/io/slippi/de.rs) ->
+      Gen/ParseEvent.v (Proofs/ParseLayout.v).
 
 Anything it does not recognise is a loud failure (exit 3, message naming file/item/token): the checks then
 treat every property that depends on the tables as "tie broken" and go searching for a failing input.
@@ -3518,6 +3520,272 @@ def gen_writer_steps():
     return '\n'.join(L) + '\n'
 
 
+# ------------------------------------------------------------------------------------------------
+# (j) event-handler front end: parse_event and the impl ParseState helpers (src/io/slippi/de.rs) -> Gen/ParseEvent.v
+
+PE_VERSION = 'state . game . start . slippi . version'
+PE_HELPERS = {
+    'last_id': ('& self', '-> Option < i32 >', 'self . game . frames . id . values ( ) . last ( ) . map ( | id | * id )', 'PhLastOfIds'),
+    'frame_open': ('& mut self , id : i32', '', 'self . game . frames . id . push ( Some ( id ) ) ;', 'PhPushId'),
+    'expect_id': ('& self , id : i32', '-> Result < ( ) >',
+                  'match self . last_id ( ) { Some ( last_id ) if last_id == id => Ok ( ( ) ) , '
+                  'last_id => Err ( err ! ( "unexpected frame id: {} (current: {:?})" , id , last_id ) ) }', 'PhOkIffLastIdEq'),
+    'data_mut': ('& mut self , port : u8 , is_follower : bool', '-> Result < & mut frame :: mutable :: Data >',
+                 'let port_data = self . port_indexes . get ( port as usize ) . and_then ( | i | self . game . frames . ports . get_mut ( * i ) ) '
+                 '. filter ( | p | p . port as u8 == port ) . ok_or_else ( || err ! ( "invalid port: {}" , port ) ) ? ; '
+                 'match is_follower { true => port_data . follower . as_mut ( ) . ok_or_else ( || err ! ( "unexpected follower on port: {}" , port ) ) , '
+                 '_ => Ok ( & mut port_data . leader ) }', 'PhPortIndexPortMatchFollower'),
+    'frame_close': ('& mut self', '',
+                    'let len = self . game . frames . len ( ) ; for p in & mut self . game . frames . ports { '
+                    'while p . leader . len ( ) < len { p . leader . push_null ( self . game . start . slippi . version ) ; } '
+                    'if let Some ( f ) = & mut p . follower { while f . len ( ) < len { f . push_null ( self . game . start . slippi . version ) ; } } }',
+                    'PhPadAllToLenWithPushNull'),
+}
+PE_COLUMNS = ('start', 'end', 'item')
+PE_ITEM_OFFSET = [
+    'let old_len = * state . game . frames . item_offset . as_ref ( ) . unwrap ( ) . last ( )',
+    'let new_len : i32 = state . game . frames . item . as_ref ( ) . unwrap ( ) . r#type . len ( ) . try_into ( ) . unwrap ( )',
+    'state . game . frames . item_offset . as_mut ( ) . unwrap ( ) . try_push ( new_len . checked_sub ( old_len ) . unwrap ( ) ) . unwrap ( )',
+]
+
+
+def pe_steps(toks, where, st):
+    """statements of an arm (or of a branch inside it) -> list of Coq pe_step terms; st: what is bound so far"""
+    out = []
+    stmts = fw_stmts(toks, where)
+    i = 0
+    while i < len(stmts):
+        s = sj(stmts[i])
+        i += 1
+        if re.fullmatch(LOG_MACRO, s):
+            continue
+        if re.fullmatch(r'return Err \( err ! \( .* \) \)', s):
+            out.append('PsFail')
+            continue
+        m = re.fullmatch(r'if %s \. lt \( (\d+) , (\d+) \) \{ state \. frame_close \( \) ; \}' % re.escape(PE_VERSION).replace('\\ ', ' '), s)
+        if m:
+            out.append('PsCloseIfLt %s %s' % (m.group(1), m.group(2)))
+            continue
+        if s == 'state . game . gecko_codes = Some ( game :: GeckoCodes { bytes : buf . to_vec ( ) , actual_size : state . split_accumulator . actual_size } )':
+            out.append('PsSetGecko')
+            continue
+        if s == 'state . game . end = Some ( game_end ( & mut & * buf ) ? )':
+            out.append('PsSetEndFromBlock')
+            continue
+        if s == 'let r = & mut & * buf' and 'r' not in st:
+            st.add('r')
+            continue
+        if s == 'let id = r . read_i32 :: < BE > ( ) ?' and 'r' in st and 'id' not in st:
+            st.add('id')
+            out.append('PsReadId')
+            continue
+        if s == 'let port = r . read_u8 ( ) ?' and 'r' in st and 'port' not in st:
+            st.add('port')
+            out.append('PsReadPort')
+            continue
+        if s == 'let is_follower = r . read_u8 ( ) ? != 0' and 'r' in st and 'is_follower' not in st:
+            st.add('is_follower')
+            out.append('PsReadFollowerNonZero')
+            continue
+        m = re.fullmatch(r'if state \. game \. frames \. (\w+) \. is_none \( \) \{ return Err \( err ! \( .* \) \) ; \}', s)
+        if m and m.group(1) in PE_COLUMNS:
+            out.append('PsRequireColumn %s' % coq_str(m.group(1)))
+            continue
+        if s == 'state . frame_open ( id )' and 'id' in st:
+            out.append('PsOpenFrame')
+            continue
+        if s == 'state . expect_id ( id ) ?' and 'id' in st:
+            out.append('PsExpectId')
+            continue
+        if s == 'state . frame_close ( )':
+            out.append('PsClose')
+            continue
+        m = re.fullmatch(r'state \. game \. frames \. (\w+) \. as_mut \( \) \. unwrap \( \) \. read_push \( r , state \. game \. start \. slippi \. version \) \?', s)
+        if m and m.group(1) in PE_COLUMNS and 'r' in st:
+            out.append('PsReadPush %s' % coq_str(m.group(1)))
+            continue
+        if tv(stmts[i - 1][:1]) == ['if']:
+            sv = StmtView(stmts[i - 1], where)
+            t = stmts[i - 1]
+            j = sv.first_top(1, len(t), '{')
+            c = match_close(t, j) if j >= 0 else -1
+            if j >= 0 and c + 2 < len(t) and tv(t[c + 1:c + 3]) == ['else', '{'] and match_close(t, c + 2) == len(t) - 1:
+                cond = sj(t[1:j])
+                m = re.fullmatch(r'state \. game \. start \. slippi \. version \. gte \( (\d+) , (\d+) \)', cond)
+                if m:
+                    y = pe_steps(t[j + 1:c], where, set(st))
+                    n = pe_steps(t[c + 3:-1], where, set(st))
+                    out.append('PsIfGte %s %s [%s] [%s]' % (m.group(1), m.group(2), '; '.join(y), '; '.join(n)))
+                    continue
+                m = re.fullmatch(r'last_id \+ (\d+) == id', cond)
+                if m and st.__contains__('last_id') and 'id' in st:
+                    y = pe_steps(t[j + 1:c], where, set(st))
+                    n = pe_steps(t[c + 3:-1], where, set(st))
+                    dflt = [x for x in st if isinstance(x, tuple)][0][1]
+                    out.append('PsIfNextId (FIRST_INDEX - %d)%%Z %s [%s] [%s]' % (dflt, m.group(1), '; '.join(y), '; '.join(n)))
+                    st.discard('last_id')
+                    continue
+            raise TranslateError('%s: unrecognised conditional: %s' % (where, s[:300]))
+        m = re.fullmatch(r'let last_id = state \. last_id \( \) \. unwrap_or \( frame :: FIRST_INDEX - (\d+) \)', s)
+        if m and 'last_id' not in st:
+            st.add('last_id')
+            st.add(('dflt', int(m.group(1))))
+            if i >= len(stmts) or not sj(stmts[i]).startswith('if last_id + '):
+                raise TranslateError('%s: `let last_id = ..` is not followed by `if last_id + N == id { .. } else { .. }`' % where)
+            continue
+        if s == 'let version = %s' % PE_VERSION and 'version' not in st:
+            st.add('version')
+            continue
+        if s == 'let data = state . data_mut ( port , is_follower ) ?' and 'port' in st and 'is_follower' in st and 'data' not in st:
+            st.add('data')
+            out.append('PsDataMut')
+            continue
+        if s == 'data . validity . as_mut ( ) . map ( | v | v . push ( true ) )' and 'data' in st:
+            out.append('PsPushValidityTrue')
+            continue
+        m = re.fullmatch(r'data \. (pre|post) \. read_push \( r , version \) \?', s)
+        if m and 'data' in st and 'version' in st and 'r' in st:
+            out.append('PsReadPush %s' % coq_str(m.group(1)))
+            continue
+        m = re.fullmatch(r'state \. data_mut \( port , is_follower \) \? \. (pre|post) \. read_push \( r , version \) \?', s)
+        if m and 'port' in st and 'is_follower' in st and 'version' in st and 'r' in st:
+            out.append('PsDataMut')
+            out.append('PsReadPush %s' % coq_str(m.group(1)))
+            continue
+        if s == PE_ITEM_OFFSET[0] and [sj(x) for x in stmts[i:i + 2]] == PE_ITEM_OFFSET[1:]:
+            i += 2
+            out.append('PsPushItemOffset')
+            continue
+        raise TranslateError('%s: unrecognised statement: %s' % (where, s[:300]))
+    return out
+
+
+def gen_parse_event():
+    all_toks = tokenize(read(DE_RS), DE_RS)
+    if find_seq(all_toks, ['type', 'BE', '=', 'byteorder', '::', 'BigEndian', ';']) < 0:
+        raise TranslateError('%s: `type BE = byteorder::BigEndian;` not found' % DE_RS)
+    events = dict(enum_codes(DE_RS, 'Event'))
+    first_index = int_const('src/frame/mod.rs', 'FIRST_INDEX')
+    # ---- helpers of impl ParseState
+    helpers = []
+    for name, (params, ret, body, shape) in PE_HELPERS.items():
+        p_, r_, b_ = find_fn(DE_RS, 'ParseState', name)
+        if sjp(p_) != params or sj(r_) != ret or sj(b_) != body:
+            raise TranslateError('%s ParseState::%s: not the expected helper (%s): %s' % (DE_RS, name, shape, sj(b_)[:400]))
+        helpers.append((name, shape))
+    # ---- parse_event
+    where = '%s fn parse_event' % DE_RS
+    params, ret, body = find_fn(DE_RS, None, 'parse_event')
+    if sjp(params) != 'mut r : R , state : & mut ParseState , opts : Option < & Opts >' or sj(ret) != '-> Result < u8 >':
+        raise TranslateError('%s: unexpected signature' % where)
+    raw = fw_stmts(body, where)
+    sts = [x for x in raw if not re.fullmatch(LOG_MACRO, sj(x))]
+    m = strict_match([sj(x) for x in sts], [
+        ('`let mut code = r.read_u8()?`', r'let mut code = r \. read_u8 \( \) \?'),
+        ('`let size = state.payload_sizes[code as usize].ok_or_else(|| err!(..))?.get() as usize`',
+         r'let size = state \. payload_sizes \[ code as usize \] \. ok_or_else \( \|\| err ! \( .* \) \) \? \. get \( \) as usize'),
+        ('`let mut buf = vec![0; size]`', r'let mut buf = vec ! \[ 0 ; size \]'),
+        ('`r.read_exact(&mut buf)?`', r'r \. read_exact \( & mut buf \) \?'),
+        ('the message-splitter substitution', r'if code == Event :: MessageSplitter as u8 \{ if let Some \( wrapped_event \) = handle_splitter_event '
+         r'\( & buf , & mut state \. split_accumulator \) \? \{ code = wrapped_event ; buf \. clear \( \) ; buf \. append \( & mut state \. split_accumulator \. raw \) ; \} \}'),
+        ('the debug dump', r'if let Some \( ref d \) = opts \. as_ref \( \) \. and_then \( \| o \| o \. debug \. as_ref \( \) \) '
+         r'\{ debug_write_event \( & buf , code , Some \( state \) , d \) \? ; \}'),
+        ('`*state.event_counts.entry(code).or_default() += 1`', r'\* state \. event_counts \. entry \( code \) \. or_default \( \) \+= 1'),
+        ('`let event = Event::try_from(code).ok()`', r'let event = Event :: try_from \( code \) \. ok \( \)'),
+        ('`if let Some(event) = event { use Event::*; match event { .. }; }`', r'if let Some \( event \) = event \{ use Event :: \* ; match event \{ .* \} ;? ?\}'),
+        ('`state.bytes_read += <expr>`', r'state \. bytes_read \+= (.*)'),
+        ('`Ok(code)`', r'Ok \( code \)'),
+    ], where)
+    incr = m[9].group(1)
+    blk = sts[8]
+    sv = StmtView(blk, where)
+    j = sv.first_top(1, len(blk), '{')
+    inner = fw_stmts(blk[j + 1:-1], where)
+    mt = [x for x in inner if tv(x[:1]) == ['match']]
+    if len(mt) != 1 or tv(mt[0][:3]) != ['match', 'event', '{'] or match_close(mt[0], 2) != len(mt[0]) - 1:
+        raise TranslateError('%s: `match event { .. }` not found' % where)
+    arms_t = mt[0][3:-1]
+    av = StmtView(arms_t, where)
+    arms = []
+    i = 0
+    while i < len(arms_t):
+        p = av.first_top(i, len(arms_t), '=>')
+        if p < 0:
+            raise TranslateError('%s: unrecognised match arm: %s' % (where, sj(arms_t[i:])[:200]))
+        pat = sj(arms_t[i:p])
+        if pat not in events:
+            raise TranslateError('%s: match pattern is not a variant of de::Event: %s' % (where, pat[:100]))
+        if pat in [a for a, _ in arms]:
+            raise TranslateError('%s: two arms for %s' % (where, pat))
+        if av.is_p(p + 1, '{'):
+            e = match_close(arms_t, p + 1) + 1
+            bt = arms_t[p + 2:e - 1]
+        else:
+            e = av.first_top(p + 1, len(arms_t), ',')
+            e = len(arms_t) if e < 0 else e
+            bt = arms_t[p + 1:e]
+        for tok in bt:
+            if tok[0] == 'id' and tok[1] in ('break', 'continue', 'loop', 'while', 'for'):
+                raise TranslateError('%s arm %s: `%s` in an arm' % (where, pat, tok[1]))
+        arms.append((pat, pe_steps(bt, '%s arm %s' % (where, pat), set())))
+        i = e + 1 if av.is_p(e, ',') else e
+    missing = [e for e in events if e not in [a for a, _ in arms]]
+    if missing:
+        raise TranslateError('%s: no arm for %s' % (where, missing))
+    L = []
+    L.append('(* GENERATED by tools/rust2coq.py from %s (fn parse_event, impl ParseState: last_id, frame_open, expect_id, data_mut, frame_close)' % DE_RS)
+    L.append('   and src/frame/mod.rs (FIRST_INDEX = %d) -- do not edit. *)' % first_index)
+    L.append('From Coq Require Import NArith ZArith List String.')
+    L.append('From Peppi Require Import Gen.Funs.')
+    L.append('Import ListNotations.')
+    L.append('Local Open Scope string_scope.')
+    L.append('')
+    L.append('(* the statements of an arm of `match event { .. }` (r = &mut &*buf is the cursor over the payload; trace!/debug! are not listed):')
+    L.append('   PsFail                    return Err(err!(..))')
+    L.append('   PsCloseIfLt M m           if state.game.start.slippi.version.lt(M, m) { state.frame_close(); }')
+    L.append('   PsReadId                  let id = r.read_i32::<BE>()?')
+    L.append('   PsReadPort                let port = r.read_u8()?')
+    L.append('   PsReadFollowerNonZero     let is_follower = r.read_u8()? != 0')
+    L.append('   PsRequireColumn c         if state.game.frames.<c>.is_none() { return Err(err!(..)); }')
+    L.append('   PsOpenFrame               state.frame_open(id)')
+    L.append('   PsExpectId                state.expect_id(id)?')
+    L.append('   PsClose                   state.frame_close()')
+    L.append('   PsIfGte M m yes no        if state.game.start.slippi.version.gte(M, m) { yes } else { no }')
+    L.append('   PsIfNextId d k yes no     let last_id = state.last_id().unwrap_or(d); if last_id + k == id { yes } else { no }')
+    L.append('   PsDataMut                 state.data_mut(port, is_follower)?       (bound to `data`, or used in place)')
+    L.append('   PsPushValidityTrue        data.validity.as_mut().map(|v| v.push(true))')
+    L.append('   PsReadPush c              <column c>.read_push(r, version)?        (c = pre / post of the character; start / end / item of the frame)')
+    L.append('   PsPushItemOffset          item_offset.try_push(item.type.len() - *item_offset.last())   (the three statements of the FrameEnd arm)')
+    L.append('   PsSetGecko                state.game.gecko_codes = Some(GeckoCodes { bytes: buf.to_vec(), actual_size: state.split_accumulator.actual_size })')
+    L.append('   PsSetEndFromBlock         state.game.end = Some(game_end(&mut &*buf)?) *)')
+    L.append('Inductive pe_step :=')
+    L.append('| PsFail | PsCloseIfLt (M m : N) | PsReadId | PsReadPort | PsReadFollowerNonZero | PsRequireColumn (col : string)')
+    L.append('| PsOpenFrame | PsExpectId | PsClose')
+    L.append('| PsIfGte (M m : N) (yes no : list pe_step) | PsIfNextId (dflt : Z) (k : Z) (yes no : list pe_step)')
+    L.append('| PsDataMut | PsPushValidityTrue | PsReadPush (col : string) | PsPushItemOffset | PsSetGecko | PsSetEndFromBlock.')
+    L.append('')
+    L.append('(* the arms of `match event`, in source order *)')
+    L.append('Definition parse_event_arms : list (string * list pe_step) :=\n  [%s]%%N.' % ';\n   '.join(
+        '(%s, [%s])' % (coq_str(a), '; '.join(s)) for a, s in arms))
+    L.append('')
+    L.append('(* prologue / epilogue of parse_event (fixed by template): code = r.read_u8()?; size = state.payload_sizes[code].ok_or_else(..)?;')
+    L.append('   buf = exactly size bytes; the message-splitter substitution (Gen/Splitter.v); the match above for a known code, nothing for an')
+    L.append('   unknown one; then state.bytes_read += %s *)' % incr)
+    L.append(expr_to_gallina(incr, [], {'size': 'size'}, where, 'pe_bytes_read_increment', ['size'], 'N'))
+    L.append('')
+    L.append('(* impl ParseState helpers, each compared token-for-token with the one recognised body:')
+    L.append('   PhLastOfIds                     self.game.frames.id.values().last().map(|id| *id)')
+    L.append('   PhPushId                        self.game.frames.id.push(Some(id))')
+    L.append('   PhOkIffLastIdEq                 match self.last_id() { Some(last_id) if last_id == id => Ok(()), last_id => Err(..) }')
+    L.append('   PhPortIndexPortMatchFollower    port_indexes.get(port).and_then(ports.get_mut).filter(p.port == port).ok_or_else(..)?; follower.as_mut().ok_or_else(..) / leader')
+    L.append('   PhPadAllToLenWithPushNull       for every port: while leader.len() < frames.len() { push_null }; the same for the follower if present *)')
+    L.append('Inductive ph_shape := PhLastOfIds | PhPushId | PhOkIffLastIdEq | PhPortIndexPortMatchFollower | PhPadAllToLenWithPushNull.')
+    L.append('Definition parse_state_helpers : list (string * ph_shape) :=\n  [%s].' % '; '.join('(%s, %s)' % (coq_str(n), s) for n, s in helpers))
+    L.append('(* de::Event: variant name -> code (the Event_* constants of Gen/Funs.v) *)')
+    L.append('Definition parse_event_codes : list (string * N) :=\n  [%s].' % '; '.join('(%s, Event_%s)' % (coq_str(n), n) for n in events))
+    return '\n'.join(L) + '\n'
+
+
 def write_if_changed(path, content):
     os.makedirs(os.path.dirname(path), exist_ok=True)
     try:
@@ -3538,7 +3806,7 @@ def main():
                       ('WriterSizes.v', gen_payload_sizes), ('SlppEntries.v', gen_slpp_entries),
                       ('FrameWrite.v', gen_frame_write), ('Splitter.v', gen_splitter),
                       ('ReadTail.v', gen_read_tail), ('UbjsonMarkers.v', gen_ubjson_markers),
-                      ('WriterRaw.v', gen_writer_raw), ('WriterSteps.v', gen_writer_steps)):
+                      ('WriterRaw.v', gen_writer_raw), ('WriterSteps.v', gen_writer_steps), ('ParseEvent.v', gen_parse_event)):
         try:
             content = gen()
             if write_if_changed(os.path.join(OUT, name), content):
